@@ -78,9 +78,19 @@ def r1_validate(report, repo):
       if isinstance(v, ast.Constant) and v.value is False:
         continue
       # dominated by T edge of the all-validators test and an outcome=PASS
+      def accepted(e, at):
+        """the all-validators verdict, in place or through a local"""
+        if call_name(e) == 'all':
+          return True
+        if isinstance(e, ast.Name):
+          vs = lib.value_exprs(g, at, e)
+          return bool(vs) and all(call_name(x) == 'all' for x in vs)
+        return False
       ok = g.dominated_by_edge(
           n, lambda s, l, d: s.kind == 'test' and l == 'T' and
-          call_name(s.ast) == 'all')
+          accepted(s.ast, s))
+      if not ok and isinstance(v, ast.BoolOp) and isinstance(v.op, ast.And):
+        ok = accepted(v.values[0], n)  # `accepted and any(...)`
       report.check(ok, rule, f.qualname, 'marginal-only-on-pass', n.ast,
                    'marginal can become true only on the branch where all '
                    'validators accepted',
@@ -286,7 +296,14 @@ def r3_stored_value(report, repo, only_cache=False, cache_rule='C10-R3'):
                      'to (or invalidates) the base-type cache')
   for s in stores:
     t = [t for t in s.ast.targets if isinstance(t, ast.Subscript)][0]
-    report.check(core.is_name(t.slice, 'coordinates'), rule, f.qualname,
+    # the key: the coordinates parameter, or its 1-tuple for one dimension
+    cparam = lib.param_names(f.node)[1]
+    kv = lib.value_exprs(g, s, t.slice) if isinstance(t.slice, ast.Name) \
+        else [t.slice]
+    okk = bool(kv) and all(
+        core.is_name(x, cparam) or (isinstance(x, ast.Tuple) and len(
+            x.elts) == 1 and core.is_name(x.elts[0], cparam)) for x in kv)
+    report.check(okk, rule, f.qualname,
                  'store-key', s.ast, 'value stored under its coordinates')
   if not only_cache:
     return
@@ -570,88 +587,104 @@ def r6_conditional_validators(report, repo):
 
 
 def r7_measurements_pass(report, repo, rule='C06-R7'):
-  report.rule(rule, 'T-DTABLE: _measurements_pass allows exactly {PASS} plus '
-              'UNSET iff CONF.allow_unset_measurements; _measurements_marginal '
-              'is any(marginal)')
+  report.rule(rule, 'T-DTABLE: _measurements_pass, per measurement examined: '
+              'accepted iff its outcome is PASS, or UNSET with '
+              'CONF.allow_unset_measurements; True iff every measurement of '
+              'the phase is accepted (the marginal flag: C05-R1)')
   f = repo.func(TS, 'PhaseState._measurements_pass')
-  g = lib.cfg(f)
-  # what the allowed-outcome collection contains when the membership test is
-  # made, per value of CONF.allow_unset_measurements (a set that is added to,
-  # or a literal chosen per branch: both are read off the path)
-  def cl_conf(expr, steps):
+
+  def members_on_path(coll, steps):
+    """Outcome names in the collection tested, as built on this path."""
+    if isinstance(coll, (ast.Set, ast.Tuple, ast.List)):
+      return [(dotted(e) or '?').split('.')[-1] for e in coll.elts]
+    if not isinstance(coll, ast.Name):
+      return None
+    for j in range(len(steps) - 1, -1, -1):
+      s_ = steps[j][0].ast
+      if steps[j][0].kind == 'stmt' and isinstance(s_, ast.Assign) and \
+          core.is_name(s_.targets[0], coll.id) and isinstance(
+              s_.value, (ast.Set, ast.Tuple, ast.List)):
+        members = [(dotted(e) or '?').split('.')[-1] for e in s_.value.elts]
+        for k in range(j + 1, len(steps)):
+          for c_ in [x for x in steps[k][0].subnodes()
+                     if isinstance(x, ast.Call)]:
+            if last_attr(c_) == 'add' and dotted(c_.func.value) == coll.id \
+                and c_.args:
+              members.append((dotted(c_.args[0]) or '?').split('.')[-1])
+        return members
+    return None
+
+  def classify(expr, steps):
+    v = classify.valuation
+    if isinstance(expr, ast.Call) and call_name(expr) == 'bool' and \
+        len(expr.args) == 1:
+      expr = expr.args[0]
     if dotted(expr) == 'CONF.allow_unset_measurements':
       return 'conf'
+    path = cfgm.Path(steps, None)
+    if isinstance(expr, ast.Compare) and len(expr.ops) == 1:
+      left = cfgm.path_dotted(path, expr.left) or ''
+      op, r = expr.ops[0], expr.comparators[0]
+      if left.endswith('.outcome'):
+        mem = (dotted(r) or '').split('.')[-1]
+        if isinstance(op, (ast.Eq, ast.Is, ast.NotEq, ast.IsNot)) and \
+            mem in ('PASS', 'UNSET'):
+          k = 'is_pass' if mem == 'PASS' else 'is_unset'
+          return k if isinstance(op, (ast.Eq, ast.Is)) else ('not', k)
+        if isinstance(op, (ast.In, ast.NotIn)):
+          members = members_on_path(r, steps)
+          if members is None:
+            return None
+          inside = (v['is_pass'] and 'PASS' in members) or (
+              v['is_unset'] and 'UNSET' in members) or (
+                  not v['is_pass'] and not v['is_unset'] and
+                  bool(set(members) - {'PASS', 'UNSET'}))
+          return inside if isinstance(op, ast.In) else not inside
     return None
 
-  seen_rows = []
+  rows = set()
 
-  def sp_conf(v, p):
-    tests = [(i, n) for i, (n, _) in enumerate(p.steps) if n.kind == 'test' and
-             isinstance(n.ast, ast.Compare) and len(n.ast.ops) == 1 and
-             isinstance(n.ast.ops[0], (ast.In, ast.NotIn)) and
-             (dotted(n.ast.left) or '').endswith('.outcome')]
-    if not tests:
-      return None
-    i, t = tests[0]
-    coll = t.ast.comparators[0]
-    members = None
-    if isinstance(coll, ast.Name):
-      # last literal bound to it before the test, plus .add() calls since
-      for j in range(i - 1, -1, -1):
-        s_ = p.steps[j][0].ast
-        if p.steps[j][0].kind == 'stmt' and isinstance(s_, ast.Assign) and \
-            core.is_name(s_.targets[0], coll.id) and isinstance(
-                s_.value, (ast.Set, ast.Tuple, ast.List)):
-          members = [(dotted(e) or '?').split('.')[-1] for e in s_.value.elts]
-          for k in range(j + 1, i):
-            for c_ in [x for x in p.steps[k][0].subnodes()
-                       if isinstance(x, ast.Call)]:
-              if last_attr(c_) == 'add' and dotted(c_.func.value) == coll.id \
-                  and c_.args:
-                members.append((dotted(c_.args[0]) or '?').split('.')[-1])
-          break
-    elif isinstance(coll, (ast.Set, ast.Tuple, ast.List)):
-      members = [(dotted(e) or '?').split('.')[-1] for e in coll.elts]
-    want = {'PASS'} | ({'UNSET'} if v['conf'] else set())
-    seen_rows.append(v['conf'])
-    if members is None or set(members) != want:
-      return ('allowed outcomes are %s with allow_unset_measurements=%s, '
-              'expected %s' % (members, v['conf'], sorted(want)))
+  def spec(v, p):
+    if p.end != 'exit':
+      return 'raises'
+    r = p.last_return()
+    if r is None or r.value is None:
+      return 'returns nothing'
+    if isinstance(r.value, ast.Constant):
+      got = bool(r.value.value)
+    else:
+      got = lib.eval_expr(r.value, v, classify, p,
+                          before_index=len(p.steps) - 1)
+    iterated = any(l == 'iter' for n, l in p.steps if n.kind == 'for')
+    want = True if not iterated else (
+        v['is_pass'] or (v['is_unset'] and v['conf']))
+    if iterated:
+      rows.add(v['conf'])
+    if got is None:
+      return 'result not evaluable: %s' % norm(r.value)
+    if got != want:
+      return ('row: a phase whose measurements all have outcome %s is %s with '
+              'allow_unset_measurements=%s' % (
+                  'PASS' if v['is_pass'] else (
+                      'UNSET' if v['is_unset'] else 'FAIL/PARTIALLY_SET'),
+                  'accepted' if got else 'rejected', v['conf']))
     return None
 
-  lib.decision_table(report, rule, f, ['conf'], cl_conf, sp_conf)
-  report.check(set(seen_rows) == {True, False}, rule, f.qualname, 'unset-iff-conf',
+  lib.decision_table(report, rule, f, ['conf', 'is_pass', 'is_unset'],
+                     classify, spec,
+                     lambda v: not (v['is_pass'] and v['is_unset']))
+  report.check(rows == {True, False}, rule, f.qualname, 'unset-iff-conf',
                f.node, 'UNSET allowed only when CONF.allow_unset_measurements',
-               'the allowed-outcome test is not reached for both settings of '
+               'the per-measurement test is not reached for both settings of '
                'allow_unset_measurements')
-  sets = [n for n in walk_no_nested(f.node) if isinstance(n, ast.Assign) and
-          isinstance(n.value, (ast.Set, ast.Tuple, ast.List))]
-  # canonical quantifier shape (return all(...) and the explicit early-return
-  # loop are the same thing here)
-  qs = lib.quantifier_loops(g)
-  ok = len(qs) == 1 and qs[0]['kind'] == 'all' and isinstance(
-      qs[0]['iter'], ast.Call) and dotted(qs[0]['iter'].func) in (
-          'self.phase_record.measurements.values', 'self.measurements.values')
-  if ok:
-    var = dotted(qs[0]['target'])
-    alloweds = {dotted(x.targets[0]) for x in sets}
-    cs = qs[0]['conds']
-    # the only condition for "return False": the outcome is not in the allowed
-    # set (no filter that would exempt some measurements)
-    ok = len(cs) == 1 and isinstance(cs[0][0], ast.Compare) and \
-        dotted(cs[0][0].left) == (var or '') + '.outcome' and \
-        dotted(cs[0][0].comparators[0]) in alloweds and (
-            (isinstance(cs[0][0].ops[0], ast.In) and cs[0][1] is False) or
-            (isinstance(cs[0][0].ops[0], ast.NotIn) and cs[0][1] is True))
+  loops = [n for n in walk_no_nested(f.node) if isinstance(n, ast.For)]
+  ok = len(loops) == 1 and isinstance(loops[0].iter, ast.Call) and \
+      dotted(loops[0].iter.func) in (
+          'self.phase_record.measurements.values',
+          'self.phase_record.measurements.items', 'self.measurements.values',
+          'self.measurements.items')
   report.check(ok, rule, f.qualname, 'all-measurements', f.node,
-               'returns all(meas.outcome in allowed) over every measurement')
-  m = repo.func(TS, 'PhaseState._measurements_marginal')
-  qm = lib.quantifier_loops(lib.cfg(m))
-  ok = len(qm) == 1 and qm[0]['kind'] == 'any' and len(qm[0]['conds']) == 1 and \
-      qm[0]['conds'][0][1] is True and dotted(qm[0]['conds'][0][0]) == \
-      (dotted(qm[0]['target']) or '') + '.marginal'
-  report.check(ok, rule, m.qualname, 'any-marginal', m.node,
-               '_measurements_marginal = any(meas.marginal ...)')
+               'one loop over every measurement of the phase')
 
 
 def r8_order(report, repo):
